@@ -90,6 +90,7 @@ fn build(ch: &mut Chooser, anchor: (u32, u32), positions: &[(u32, u32)], thoroug
     let mut sheet = BSheet::new("S1", items.clone());
     sheet.preamble = !ch.flag("no-optional-blocks-before-sheetdata");
     if ch.flag("cell-fPhShow-bit-set") { sheet.cell_flags = 1; }
+    if sheet.preamble { sheet.preamble_bulk = ch.choose("bulk-in-the-skipped-blocks-before-sheet-data(none,600-area selection,1000-area selection,410 column infos)", 4) as u8; }
     let book = BBook { sheets: vec![sheet, BSheet::new("Other", vec![BItem::Cell { row: 3, col: 2, style: 0, val: BVal::Real(9.0) }])], sst: SST.iter().map(|s| s.to_string()).collect(), ..Default::default() };
     let bytes = write(&book, if ch.flag("zip-stored") { Method::Stored } else { Method::Deflated });
     let d = json!({"cells": desc, "stream": items.iter().map(|i| match i { BItem::Cell { row, col, val, .. } => format!("cell({row},{col}) {}", format!("{val:?}").chars().take(24).collect::<String>()), BItem::Raw(t, d) => format!("rec {t:#06x} len {}", d.len()) }).collect::<Vec<_>>()});
